@@ -15,8 +15,18 @@ pub fn run(tier: Tier, seed: u64) -> ! {
     rep.extra.insert("exhaustive".into(), serde_json::json!(true));
     // seeded serial histories: compositions of many writes on the same entities
     let rollback_rule = rep.findings.rule_open("C02-R1");
-    for case in 0..tier.pick(300, 20_000) {
+    for case in 0..tier.pick(1500, 20_000) {
         txm::serial_history(&mut rep, seed, case, rollback_rule);
+    }
+    // seeded histories of overlapping sessions, judged by specification + deviation model
+    if crate::txo::rules_as_modelled(&rep) {
+        let fail = |on: bool| crate::hooks::FAIL_COMMIT.store(on, std::sync::atomic::Ordering::SeqCst);
+        let n: u64 = std::env::var("C01_OVERLAP").ok().and_then(|s| s.parse().ok()).unwrap_or(tier.pick(400, 12_000));
+        for case in 0..n {
+            crate::txo::overlap_history(&mut rep, seed, case, crate::txo::Mode::Isolation, &fail);
+        }
+    } else {
+        println!("INFO: property=C01 overlapping-session histories skipped: the set of open findings differs from the one the deviation model was written for");
     }
     rep.assumptions = vec![
         "interleaving is at statement granularity on one thread (races inside a statement are C20's)".into(),
